@@ -34,6 +34,8 @@ type Run struct {
 	N     int
 	Fail  []int
 	Y     uint64
+	Src   string // the source collection: "" / lit = a literal; map | mapitems | filter | filtermap | flatten = a lazy collection over it
+	SFail int    // 1 + position at which the source's own function fails (0 = never)
 }
 
 func (r *Run) opText() string {
@@ -41,7 +43,15 @@ func (r *Run) opText() string {
 	for i, f := range r.Fail {
 		fl[i] = strconv.Itoa(f)
 	}
-	return fmt.Sprintf("run n=%d mp=%d N=%d fail=%s y=%d", r.Cores, r.MP, r.N, hx.List(fl), r.Y)
+	op := fmt.Sprintf("run n=%d mp=%d N=%d fail=%s y=%d", r.Cores, r.MP, r.N, hx.List(fl), r.Y)
+	if r.Src != "" && r.Src != "lit" {
+		sf := "-"
+		if r.SFail > 0 {
+			sf = strconv.Itoa(r.SFail - 1)
+		}
+		op += fmt.Sprintf(" src=%s sfail=%s", r.Src, sf)
+	}
+	return op
 }
 
 func mix(a, b, c uint64) uint64 {
@@ -70,6 +80,10 @@ type failure struct{ k int }
 
 func (f failure) Error() string { return fmt.Sprintf("verif-f failed on item %d", f.k) }
 
+type srcFailure struct{ k int }
+
+func (f srcFailure) Error() string { return fmt.Sprintf("verif-src failed on item %d", f.k) }
+
 type recorder struct {
 	mu     sync.Mutex
 	events []string
@@ -92,7 +106,9 @@ func evaluate(r *Run, symbol string, rec *recorder) (yielded int, end string) {
 	f := func(c *api.Context, v interface{}) (interface{}, error) {
 		k, ok := v.(int)
 		if !ok {
-			panic(fmt.Sprintf("verif-f: unexpected argument %T", v))
+			// not a value of the collection (e.g. the nil left behind by a source item that failed): answer, so that
+			// what map-parallel makes of it is seen by the consumer
+			k = 900000 + r.N
 		}
 		if rec != nil {
 			rec.log(fmt.Sprintf("c%d", k))
@@ -108,6 +124,33 @@ func evaluate(r *Run, symbol string, rec *recorder) (yielded int, end string) {
 		fs[name] = fn
 	}
 	fs["verif-f"] = f
+	// the functions of a lazy source collection; they fail on item SFail-1
+	srcFails := func(k int) bool { return r.SFail > 0 && k == r.SFail-1 }
+	fs["verif-g"] = func(c *api.Context, v interface{}) (interface{}, error) {
+		if srcFails(v.(int)) {
+			return nil, srcFailure{v.(int)}
+		}
+		return v, nil
+	}
+	fs["verif-gi"] = func(c *api.Context, p api.Pair) (interface{}, error) {
+		if srcFails(p.Second().(int)) {
+			return nil, srcFailure{p.Second().(int)}
+		}
+		return api.AnyAnyPair{p.First(), p.Second()}, nil
+	}
+	fs["verif-p"] = func(c *api.Context, v interface{}) (bool, error) {
+		if srcFails(v.(int)) {
+			return false, srcFailure{v.(int)}
+		}
+		return true, nil
+	}
+	fs["verif-keep"] = func(c *api.Context, v interface{}) (bool, error) { return true, nil }
+	fs["verif-h"] = func(c *api.Context, v interface{}) (b6.UntypedCollection, error) {
+		if srcFails(v.(int)) {
+			return nil, srcFailure{v.(int)}
+		}
+		return b6.ArrayValuesCollection[int]{v.(int)}.Collection(), nil
+	}
 	ctx := &api.Context{
 		World:           ingest.NewBasicMutableWorld(),
 		FunctionSymbols: fs,
@@ -119,10 +162,27 @@ func evaluate(r *Run, symbol string, rec *recorder) (yielded int, end string) {
 	for i := range input {
 		input[i] = i
 	}
-	e := b6.NewCallExpression(b6.NewSymbolExpression(symbol), []b6.Expression{
-		b6.NewCollectionExpression(input.Collection()),
-		b6.NewSymbolExpression("verif-f"),
-	})
+	call := func(f string, args ...b6.Expression) b6.Expression {
+		return b6.NewCallExpression(b6.NewSymbolExpression(f), args)
+	}
+	sym := b6.NewSymbolExpression
+	source := b6.NewCollectionExpression(input.Collection())
+	switch r.Src {
+	case "", "lit":
+	case "map": // Next() reports a failing item as (true, err)
+		source = call("map", source, sym("verif-g"))
+	case "mapitems": // (true, err)
+		source = call("map-items", source, sym("verif-gi"))
+	case "filter": // (false, err)
+		source = call("filter", source, sym("verif-p"))
+	case "filtermap": // filter passes the (true, err) of the map under it on
+		source = call("filter", call("map", source, sym("verif-g")), sym("verif-keep"))
+	case "flatten": // flatten passes the (true, err) of the map under it on; keys are the inner collections'
+		source = call("flatten", call("map", source, sym("verif-h")))
+	default:
+		panic("unknown source " + r.Src)
+	}
+	e := call(symbol, source, sym("verif-f"))
 	result, err := api.Evaluate(e, ctx)
 	if err != nil {
 		panic(fmt.Sprintf("evaluate: %s", err))
@@ -143,6 +203,9 @@ func evaluate(r *Run, symbol string, rec *recorder) (yielded int, end string) {
 			if err != nil {
 				end = "other"
 				// the VM may wrap the error with the expression it was evaluating: find our message in it
+				if strings.Contains(err.Error(), "verif-src failed on item ") {
+					end = "s"
+				}
 				const marker = "verif-f failed on item "
 				if j := strings.Index(err.Error(), marker); j >= 0 {
 					rest := err.Error()[j+len(marker):]
@@ -165,7 +228,7 @@ func evaluate(r *Run, symbol string, rec *recorder) (yielded int, end string) {
 			k = (v - 1) / 7
 		}
 		mark := ""
-		if key, isint := i.Key().(int); !isint || key != k || k != yielded {
+		if key, isint := i.Key().(int); !isint || (key != k && r.Src != "flatten") || k != yielded {
 			mark = "!"
 		}
 		if rec != nil {
@@ -257,7 +320,23 @@ func sweep() []Run {
 	return out
 }
 
-var sweepRuns = sweep()
+var lazySources = []string{"map", "mapitems", "filter", "filtermap", "flatten"}
+
+// lazy sources: style × cores × (source fails first / middle / last / never), f failing after, before or not at all
+func sweepSources() []Run {
+	var out []Run
+	for _, src := range lazySources {
+		for _, n := range []int{2, 3, 8, 16} {
+			for _, sf := range []int{1, 4, 7, 0} {
+				out = append(out, Run{Cores: n, N: 7, Src: src, SFail: sf})
+				out = append(out, Run{Cores: n, N: 7, Src: src, SFail: sf, Fail: []int{5}})
+			}
+		}
+	}
+	return out
+}
+
+var sweepRuns = append(sweep(), sweepSources()...)
 
 // Many cores, a failing item among the first three: after the failure the consumer is blocked on one of the first
 // `out` channels while run() still has thousands of channels to close — the window in which a misplaced
@@ -323,6 +402,17 @@ func genRun(seed uint64, no int) Run {
 			run.Fail = append(run.Fail, k)
 		}
 	}
+	if run.N > 0 && r.Chance(2, 5) { // a lazy source collection whose own function may fail
+		run.Src = lazySources[r.Intn(len(lazySources))]
+		switch r.Intn(5) {
+		case 0:
+			run.SFail = 1
+		case 1:
+			run.SFail = run.N
+		case 2, 3:
+			run.SFail = 1 + r.Intn(run.N)
+		}
+	}
 	return run
 }
 
@@ -333,6 +423,13 @@ var corpus = []Run{
 	{Cores: 3, MP: 2, N: 0},
 	{Cores: 16, MP: 4, N: 5},
 	{Cores: 2, MP: 2, N: 40, Fail: []int{39}},
+	// a source iterator that reports its failing item as (true, err) / (false, err): map-parallel must stop there
+	// (seeded change C25-4 carried on and yielded everything)
+	{Cores: 2, MP: 4, N: 6, Src: "map", SFail: 3},
+	{Cores: 4, MP: 4, N: 6, Src: "filter", SFail: 1},
+	{Cores: 3, MP: 2, N: 6, Src: "mapitems", SFail: 6},
+	{Cores: 8, MP: 8, N: 9, Src: "filtermap", SFail: 5, Fail: []int{7}},
+	{Cores: 2, MP: 2, N: 5, Src: "flatten", SFail: 4},
 }
 
 func note(c *hx.Ctx, r *Run, ans string) {
@@ -360,6 +457,21 @@ func note(c *hx.Ctx, r *Run, ans string) {
 		c.Note("fail:some")
 	}
 	c.Note("outcome:" + strings.SplitN(ans, " ", 2)[0])
+	if r.Src != "" {
+		where := "never"
+		switch {
+		case r.SFail == 1:
+			where = "first"
+		case r.SFail == r.N:
+			where = "last"
+		case r.SFail > 0:
+			where = "middle"
+		}
+		c.Note("source:" + r.Src + ":fails-" + where)
+		if strings.Contains(ans, " e:s]") {
+			c.Note("error:the-source's")
+		}
+	}
 	if len(r.Fail) > 0 {
 		minFail := r.Fail[0]
 		for _, k := range r.Fail {
@@ -393,7 +505,7 @@ func main() {
 	var cacheSeed uint64
 	hx.Main(hx.Family{
 		Name: "c25",
-		Rule: "one evaluation of map-parallel (and of map) over the collection 0..N-1 with a registered function that logs, yields/sleeps per a seeded plan and fails on the listed items; cores 1..16, GOMAXPROCS 1/2/4/8/16, N from 0 to 60, failing: none 25%, one 45%, a few 25%, all 5%; a consumer that yields/sleeps between Next() calls; cases 0.." + fmt.Sprint(len(sweepRuns)-1) + " sweep cores 1..16 x every failing position of 7 items; the next " + fmt.Sprint(bigCount) + " cases and every 25th case after them use 512/1024/4096 cores (16384 for every 500th case) with the first failing item at position 0, 1 or 2 (the close-before-store window); non-trivial = at least 2 cores and more items than cores; distinct = by hash of the op text",
+		Rule: "one evaluation of map-parallel (and of map) over the collection 0..N-1 with a registered function that logs, yields/sleeps per a seeded plan and fails on the listed items; cores 1..16, GOMAXPROCS 1/2/4/8/16, N from 0 to 60, failing: none 25%, one 45%, a few 25%, all 5%; a consumer that yields/sleeps between Next() calls; cases 0.." + fmt.Sprint(len(sweepRuns)-1) + " sweep cores 1..16 x every failing position of 7 items, then lazy sources (map, map-items, filter, filter over map, flatten over map) x cores 2/3/8/16 x the source's function failing first/middle/last/never; 40% of the random cases use a lazy source; the next " + fmt.Sprint(bigCount) + " cases and every 25th case after them use 512/1024/4096 cores (16384 for every 500th case) with the first failing item at position 0, 1 or 2 (the close-before-store window); non-trivial = at least 2 cores and more items than cores; distinct = by hash of the op text",
 		Quick:    2000,
 		Thorough: 20000,
 		Corpus: func(c *hx.Ctx) {
